@@ -2356,6 +2356,12 @@ class C20(Spec):
                 return 0.0 if abs(node.position) < 1e-16 else unit(m, node.name, t) * node.position * node.multiplier
             return sum(expected_risk(c, m, t) for c in node.children.values())
 
+        def gross_risk(node, m, t):
+            # (a hedged book sums large offsetting terms to ~0: the rounding of that sum scales with the terms, not with the result)
+            if not hasattr(node, "capital"):
+                return abs(unit(m, node.name, t) * node.position * node.multiplier)
+            return sum(gross_risk(c, m, t) for c in node.children.values())
+
         def check_risk(target, t, where):
             depth = {}
 
@@ -2372,7 +2378,7 @@ class C20(Spec):
                 for m in measures:
                     e = expected_risk(n, m, t)
                     g = n.risk.get(m)
-                    if g is None or not (abs(g - e) <= 1e-9 * (1 + abs(e))):
+                    if g is None or not (abs(g - e) <= 1e-9 * (1 + abs(e)) + 1e-12 * gross_risk(n, m, t)):
                         sim.violation("c20_risk", "%s risk[%s]=%r %s on date #%d, unit x position x multiplier summed over the subtree = %r" % (n.full_name, m, g, where, t, e), {"sec": not hasattr(n, "capital")})
                         return False
                 has_hist = hasattr(n, "risks")
